@@ -42,10 +42,14 @@ Definition on_packet_sent (s : vsock) (h : chdr) : vsock :=
   set_t_ack_delay (set_cbu (set_last_sent_window (set_last_sent_ack_nr s (ch_ack h)) (ch_wnd h)) 0) None.
 
 (* one attempt to hand a datagram to the transport: consumes one scripted outcome *)
-Definition next_send (s : vsock) : vsock * send_outcome :=
-  match v_sends s with
-  | [] => (s, TSent)
-  | o :: r => (set_sends s r, o)
+Definition next_send (s : vsock) (size : Z) : vsock * send_outcome :=
+  let '(s1, o) := match v_sends s with
+                  | [] => (s, TSent)
+                  | o :: r => (set_sends s r, o)
+                  end in
+  match o, v_emsg_limit s with
+  | TSent, Some m => if m <? size then (s1, TEmsgsize) else (s1, TSent)
+  | _, _ => (s1, o)
   end.
 
 Definition emit (s : vsock) (p : packet) : vsock := set_out s (p :: v_out s).
@@ -78,10 +82,10 @@ Definition fit_sack (s : vsock) (sk : option sackbits) : option sackbits :=
 Definition send_control_packet (s : vsock) (h : chdr) : step bool :=
   if v_transport_pending s then SOk s false
   else
-    let '(s1, o) := next_send s in
+    let hw := hdr_with h (ch_type h) (ch_seq h) (fit_sack s (ch_sack h)) in
+    let '(s1, o) := next_send s (match ch_sack hw with Some _ => 30 | None => 20 end) in
     match o with
     | TSent =>
-        let hw := hdr_with h (ch_type h) (ch_seq h) (fit_sack s (ch_sack h)) in
         SOk (on_packet_sent (emit s1 {| p_hdr := hw; p_payload := [] |}) h) true
     | TPending => SOk (set_transport_pending s1 true) false
     | TEmsgsize | TIoErr => SErr s1 ErrSend
@@ -134,7 +138,7 @@ Definition send_data (s : vsock) (h : chdr) (f : for_sending) : step send_res :=
     else if ringlen <? off + plen then SErr s (ErrBug BugRequestedLengthExceedsBufferBounds)
     else
       let payload := firstn (Z.to_nat plen) (skipn (Z.to_nat off) (ring (v_tx s))) in
-      let '(s1, o) := next_send s in
+      let '(s1, o) := next_send s (20 + plen) in
       match o with
       | TPending => SOk (set_transport_pending s1 true) SdPending
       | TEmsgsize => SOk s1 SdEmsgsize
